@@ -37,7 +37,8 @@ type c09List struct {
 
 type c09Write struct {
 	Key string `json:"k"`
-	Val string `json:"v"` // "" = delete
+	Val string `json:"v"`
+	Del bool   `json:"del,omitempty"`
 }
 
 type c09Entry struct {
@@ -92,9 +93,10 @@ func c09Reference(lg []c09Entry) ([]map[string]string, []bool) {
 		if e.Txn {
 			at := states[e.Start]
 			for _, r := range e.Reads {
-				v1, ok1 := at[r]
-				v2, ok2 := cur[r]
-				if ok1 != ok2 || v1 != v2 {
+				// what the shipped verify op compares: a hash over (key, value
+				// bytes); a missing key and an empty value hash alike (the
+				// serializability consequence of that is C08's business)
+				if at[r] != cur[r] {
 					conflict = true
 				}
 			}
@@ -109,7 +111,7 @@ func c09Reference(lg []c09Entry) ([]map[string]string, []bool) {
 		}
 		if !conflict {
 			for _, w := range e.Writes {
-				if w.Val == "" {
+				if w.Del {
 					delete(cur, w.Key)
 				} else {
 					cur[w.Key] = w.Val
@@ -164,7 +166,7 @@ func c09Encode(lg []c09Entry, states []map[string]string) ([]*raft.Log, error) {
 			}
 		}
 		for _, w := range e.Writes {
-			if w.Val == "" {
+			if w.Del {
 				data.Operations = append(data.Operations, &LogOperation{OpType: deleteOp, Key: w.Key})
 			} else {
 				data.Operations = append(data.Operations, &LogOperation{OpType: putOp, Key: w.Key, Value: []byte(w.Val)})
@@ -300,22 +302,23 @@ func (r *c09Replica) installFrom(donor *c09Replica) error {
 func c09Alphabet(pos int) []c09Entry {
 	// pos is the 1-based log index of the entry being chosen.
 	plain := []c09Entry{
-		{Name: "put(a,1)", Writes: []c09Write{{"a", "1"}}},
-		{Name: "put(a,2)", Writes: []c09Write{{"a", "2"}}},
-		{Name: "del(a)", Writes: []c09Write{{"a", ""}}},
-		{Name: "put(b,1)", Writes: []c09Write{{"b", "1"}}},
-		{Name: "put(d/x,1)", Writes: []c09Write{{"d/x", "1"}}},
-		{Name: "del(d/x)", Writes: []c09Write{{"d/x", ""}}},
+		{Name: "put(a,1)", Writes: []c09Write{{"a", "1", false}}},
+		{Name: "put(a,2)", Writes: []c09Write{{"a", "2", false}}},
+		{Name: "del(a)", Writes: []c09Write{{"a", "", true}}},
+		{Name: "put(b,1)", Writes: []c09Write{{"b", "1", false}}},
+		{Name: "put(d/x,1)", Writes: []c09Write{{"d/x", "1", false}}},
+		{Name: "del(d/x)", Writes: []c09Write{{"d/x", "", true}}},
+		{Name: "put(b,'')", Writes: []c09Write{{"b", "", false}}},
 	}
 	out := append([]c09Entry{}, plain...)
 	for s := pos - 1; s >= 0; s-- {
 		st := uint64(s)
 		out = append(out,
-			c09Entry{Name: "txn{r(a) w(b,t1)}", Txn: true, Start: st, Reads: []string{"a"}, Writes: []c09Write{{"b", "t1"}}},
-			c09Entry{Name: "txn{r(b) w(a,t2)}", Txn: true, Start: st, Reads: []string{"b"}, Writes: []c09Write{{"a", "t2"}}},
-			c09Entry{Name: "txn{l(d/) w(d/y,t3)}", Txn: true, Start: st, Lists: []c09List{{"d/", "", -1}}, Writes: []c09Write{{"d/y", "t3"}}},
-			c09Entry{Name: "txn{r(a) w(a,t4)}", Txn: true, Start: st, Reads: []string{"a"}, Writes: []c09Write{{"a", "t4"}}},
-			c09Entry{Name: "txn{l() r(b) d(a)}", Txn: true, Start: st, Reads: []string{"b"}, Lists: []c09List{{"", "", 1}}, Writes: []c09Write{{"a", ""}}},
+			c09Entry{Name: "txn{r(a) w(b,t1)}", Txn: true, Start: st, Reads: []string{"a"}, Writes: []c09Write{{"b", "t1", false}}},
+			c09Entry{Name: "txn{r(b) w(a,t2)}", Txn: true, Start: st, Reads: []string{"b"}, Writes: []c09Write{{"a", "t2", false}}},
+			c09Entry{Name: "txn{l(d/) w(d/y,t3)}", Txn: true, Start: st, Lists: []c09List{{"d/", "", -1}}, Writes: []c09Write{{"d/y", "t3", false}}},
+			c09Entry{Name: "txn{r(a) w(a,t4)}", Txn: true, Start: st, Reads: []string{"a"}, Writes: []c09Write{{"a", "t4", false}}},
+			c09Entry{Name: "txn{l() r(b) d(a)}", Txn: true, Start: st, Reads: []string{"b"}, Lists: []c09List{{"", "", 1}}, Writes: []c09Write{{"a", "", true}}},
 		)
 	}
 	return out
